@@ -347,6 +347,8 @@ LIB_THEOREMS = {
     'C11': ['ProjAlg.rh_gl_near', 'ProjAlg.rh_gl_far', 'ProjAlg.lh_near', 'ProjAlg.inf_rev_lh_depth', 'ProjAlg.fov_edge_x', 'ProjAlg.ortho_x_left', 'ProjAlg.ortho_rh_gl_far'],
     'C03': ['AlgR.R_field', 'AlgR.Rlit32_1', 'AlgR.Rlit64_m2'],
     'C10': ['AlgR.Rlit32_2', 'AlgR.R_cos_opp'],
+    'C05': ['QuatAlg.rot_compose', 'QuatAlg.conj_hprod', 'AlgR.Rlit64_1'],
+    'C12': ['InterpAlg.lerp_at_0', 'InterpAlg.lerp_at_1', 'InterpAlg.lerp_between', 'InterpAlg.u1_orth_input', 'InterpAlg.u2_orth_input'],
     'C18': ['Sem.IntStd_IEEE', 'Sem.LitStd_IEEE'], 'C08': ['Sem.IntStd_IEEE', 'Sem.LitStd_IEEE'], 'C15': ['Sem.IntStd_IEEE'], 'C20': ['Sem.IntStd_IEEE', 'Sem.LitStd_IEEE'], 'C01': ['Sem.IntStd_IEEE', 'Sem.LitStd_IEEE'],
 }
 def lib_assumptions(pid):
